@@ -389,6 +389,12 @@ class Exec:
         self.use('axiom:[f(x) for x in xs] has len(xs) elements, the j-th being f(xs[j]); it raises iff some element raises')
         return SV('lazylist', None, n=n, at=lambda st2, j: at2(st2, j)[0])
 
+    def e_DictComp(self, st, e):
+        r = self._dispatch('dictcomp', st, e)
+        if r is NotImplemented:
+            raise OutOfSubset('dict comprehension: %s' % ast.unparse(e)[:60])
+        return r
+
     def e_Lambda(self, st, e):
         return SV('func', None, node=e, closure=dict(st.env))
 
